@@ -33,6 +33,9 @@ def existing(mods):
     return [m for m in mods if (LEAN / (m.replace(".", "/") + ".lean")).exists()]
 
 
+SHARED_OPTIONS: dict = {}
+
+
 def settings_for(p, need, r, tier):
     """(version, options) tuples under which the program should compile"""
     vs = [v for v in range(2, 11) if v >= need]
@@ -166,6 +169,35 @@ def run(tier: str) -> int:
         for v, o in settings_for(p, need, r, tier):
             c = Case(d, p, v, **o)
             stats[f"compile:{c.res[0]}"] += 1
+            if c.ok and o.get("scratch_slots"):
+                # the same setting given as ONE OptimizeOptions object that earlier programs were compiled with: the options
+                # describe how to compile, they must not carry anything over from one program to the next
+                key = (o.get("scratch_slots"), o.get("frame_pointers"))
+                if key not in SHARED_OPTIONS:
+                    import pyteal as _pt
+                    SHARED_OPTIONS[key] = _pt.OptimizeOptions(**{k_: v_ for k_, v_ in o.items() if k_ in ("scratch_slots", "frame_pointers")})
+                from recipes import compile_real as _cr
+                again = _cr(p, v, options_obj=SHARED_OPTIONS[key])
+                stats["shared-options-object:compared"] += 1
+                if again[0] == "ok" and again[1] != c.teal:
+                    stats["shared-options-object:differs"] += 1
+                    c2 = Case.__new__(Case)
+                    c2.__dict__.update(c.__dict__)
+                    tid = f"so{c.id}"
+                    d.ask(f"teal {tid} {again[1].encode().hex()}")
+                    found = None
+                    for ctx in [gen_ctx(r, mode, 10) for _ in range(30)]:
+                        ctx = dict(ctx, version=v)
+                        d.ask(f"ctx c {render_ctx(ctx)}")
+                        c.load()
+                        out = d.ask(f"cmpx t{c.id} {tid} c 6000 {slot_arg} 1")
+                        if out.split(" ")[0] in ("differ", "stackdiffer"):
+                            found = (ctx, out)
+                            break
+                    rep.violation(f"an OptimizeOptions object reused from earlier compilations changes the program (v{v} {o})"
+                                  + (f": {found[1][:200]}" if found else "; no differing context found"),
+                                  {"recipe": c.sexp, "mode": mode, "version": v, "options": o, "teal_fresh_options": c.teal, "teal_reused_options": again[1],
+                                   "ctx": render_ctx(found[0]) if found else None}, no_input=found is None)
             if c.ok:
                 c.load()
                 cases.append(c)
